@@ -265,6 +265,66 @@ func c17(c *core.Ctx) {
 		c.Ob("C17.sched", key, pos(c, s.at), okArg, detail)
 	}
 
+	// C17.always: once the timer has fired nothing lets the instance stay
+	c.Rule("C17.always", "in scheduleExpiration every path from the fired timer to a return rewrites SecureChannel.instances (the removal): no early return — `still the active one`, `renewal pending` — leaves an expired token in the table, where verifyAndDecrypt would keep accepting chunks under its keys", 1)
+	{
+		f := schedExp
+		var rewrites []ssa.Instruction
+		isRewrite := func(in ssa.Instruction) bool {
+			for _, r := range rewrites {
+				if r == in {
+					return true
+				}
+			}
+			return false
+		}
+		for _, s := range ssax.ContainerSites(f, instances) {
+			if s.Kind == ssax.MapStore || s.Kind == ssax.MapDelete {
+				rewrites = append(rewrites, s.Instr)
+			}
+		}
+		// removal moved into a private helper: the call stands for it
+		for _, call := range ssax.Calls(f) {
+			h := call.Common().StaticCallee()
+			if _, isDefer := call.(*ssa.Defer); isDefer || !isPrivateHelper(f, h) {
+				continue
+			}
+			for _, s := range ssax.ContainerSites(h, instances) {
+				if s.Kind == ssax.MapStore || s.Kind == ssax.MapDelete {
+					rewrites = append(rewrites, call)
+				}
+			}
+		}
+		n := 0
+		for _, b := range f.Blocks {
+			for _, in := range b.Instrs {
+				// the fired timer: a receive from a timer channel (select arm or plain receive)
+				var start ssa.Instruction
+				switch x := in.(type) {
+				case *ssa.Select:
+					for i, st := range x.States {
+						if shutdownChan(st.Chan) == "timer" {
+							start = selectArmStart(x, i)
+						}
+					}
+				case *ssa.UnOp:
+					if x.Op == token.ARROW && shutdownChan(x.X) == "timer" {
+						start = x
+					}
+				}
+				if start == nil {
+					continue
+				}
+				n++
+				miss, tr := ssax.Reach(f, start, func(in ssa.Instruction) bool { _, r := in.(*ssa.Return); return r }, isRewrite, nil)
+				c.Ob("C17.always", fname(f)+"·the fired timer always removes", pos(c, in), !miss && len(rewrites) > 0, "a path from the fired timer to a return skips the rewrite of the instance table: "+boolStr(miss), trace(c, tr)...)
+			}
+		}
+		if n == 0 {
+			c.Ob("C17.always", fname(f)+"·the fired timer always removes", c.P.Pos(f.Pos()), false, "no receive from a timer found in scheduleExpiration")
+		}
+	}
+
 	// C17.remove
 	{
 		f := schedExp
